@@ -88,6 +88,9 @@ def directed_cases():
         case("nested", 0, "SIMPLE"),
         case("nested", 1, "SIMPLE", no_xfail=True, black=False),
         case("nested", 2, "MUTATION_ANALYSIS", iters=6),
+        # an exception class that is private to the SUT module inside pytest.raises(...)
+        case("privexc", 0, "SIMPLE", iters=5),
+        case("privexc", 1, "SIMPLE", no_xfail=True, iters=5, black=False),
         # fault injection: every assertion-filtering execution times out (what machine load does); the written file must
         # still pass, i.e. no unverified state-dependent assertion (class counters, ids) may be exported
         case("account", 0, "SIMPLE", fault="filter_execution_times_out"),
